@@ -49,6 +49,10 @@ func transparentCalleeOf(cc *ssa.CallCommon, parent *ssa.Function) *ssa.Function
 			return f
 		}
 	}
+	// a function literal without captured variables, called directly
+	if f, ok := cc.Value.(*ssa.Function); ok && f.Parent() != nil {
+		return f
+	}
 	// a closure kept in a local variable
 	if !cc.IsInvoke() {
 		if _, isFn := cc.Value.(*ssa.Function); !isFn {
